@@ -235,6 +235,14 @@ def run_shard(prop, spec, tier, seed, shard, nshards, scratch):
             break
     res["exhaustive"] = len(out) <= 40
     stats["C17_grammar_lrus"] = n
+    # degenerate prefixes ("never fails"): empty, one stem, no scheme, unknown scheme, only www
+    if shard == 0:
+        for lru in [b"", b"s:http|", b"s:https|", b"s:ftp|", b"s:ftp|h:com|h:a|", b"s:ftp|h:com|h:a|h:www|", b"h:www|", b"h:com|h:www|", b"h:com|h:a|",
+                    b"t:80|", b"s:http|t:80|", b"s:http|h:www|", b"s:https|t:443|h:www|", b"p:x|", b"s:http|p:x|", b"s:http|t:80|p:x|",
+                    b"s:https|h:www|p:www|", b"s:http|h:www|h:com|", b"S:HTTP|H:COM|H:A|"]:
+            for name, fn in fns:
+                check_lru(lru, fn, out, stats, classes)
+            stats["C17_degenerate_inputs"] += 1
     # str input through expand_prefix
     for lru in itertools.islice(grammar(2, 1), shard, None, nshards * 7):
         check_lru(lru, lambda x: t.expand_prefix(x.decode("ascii")), out, stats, classes)
